@@ -53,10 +53,13 @@ func init() {
 		ID: "C25",
 		Explanation: "Decides that the history store delegates durability to bbolt correctly (bbolt itself is trusted): (TX-ONLY) every mutation of the database (Put, Delete, NextSequence, bucket creation/deletion) happens inside a function run by DB.Update (or registered in the initDB table, which only runs inside Update), never inside DB.View; (SYNC-ON) the options the persistent store is opened with do not disable fsync (NoSync/NoGrowSync) and carry a non-zero lock timeout, and no code turns syncing off afterwards; the in-memory test store that does disable it is audited; (ACK-AFTER-COMMIT) every store method returns to its caller the error of the Update/View it ran, so an operation is acknowledged only after its transaction committed. bbolt's own crash behaviour and reopening are not decided.",
 		NotCovered:  "bbolt's crash consistency, behaviour of reopening after a kill",
-		Rules:       []string{"TX-ONLY", "SYNC-ON", "ACK-AFTER-COMMIT"},
+		Rules:       []string{"TX-ONLY", "INIT-ALWAYS", "SYNC-ON", "ACK-AFTER-COMMIT", "ONE-TX: an acknowledged operation is one bbolt transaction, so a crash leaves either all or none of it"},
 		Patterns:    []string{"./pkg/store/..."},
-		Run:         runC25,
-		MinCounts:   map[string]int{"TX-ONLY": 6, "SYNC-ON": 1, "ACK-AFTER-COMMIT": 8},
+		Run: func(p *core.Program, r *core.Report) {
+			runC25(p, r)
+			runOneTx(p, r, "the operation runs two transactions (or one in a loop) on some path: a crash between their commits leaves a state that is not the state after any prefix of the acknowledged operations (for AddCmd: the command stored but the sequence not advanced, so the next command overwrites it)")
+		},
+		MinCounts:   map[string]int{"TX-ONLY": 6, "SYNC-ON": 1, "ACK-AFTER-COMMIT": 8, "ONE-TX": 8},
 		Trusted:     append([]string{"bbolt transactions (Update commits atomically and durably unless NoSync is set)"}, trustedBase...),
 		Controls: []core.Control{
 			{Name: "put-inside-view", Rule: "TX-ONLY", File: "pkg/store/cmd.go", Old: "func (s *dbStore) DelCmd(seq int) error {\n\treturn s.db.Update(func(tx *bolt.Tx) error {", New: "func (s *dbStore) DelCmd(seq int) error {\n\treturn s.db.View(func(tx *bolt.Tx) error {", Fire: true, Quick: true},
@@ -691,6 +694,13 @@ func runC25(p *core.Program, r *core.Report) {
 }
 
 func runC26(p *core.Program, r *core.Report) {
+	runOneTx(p, r, "the operation runs two transactions (or one in a loop) on some path: another client's operation can take effect between them, so the operation is not atomic")
+	runStatelessService(p, r)
+}
+
+// runOneTx: every exported operation of the store runs at most one bbolt
+// transaction on any path.
+func runOneTx(p *core.Program, r *core.Report, badMsg string) {
 	fns := p.FnsInPkg(pkgStore)
 	// which dbStore methods run a transaction (directly)?
 	txCalls := func(fn *ssa.Function) []ssa.Instruction {
@@ -766,14 +776,16 @@ func runC26(p *core.Program, r *core.Report) {
 		}
 		switch {
 		case two:
-			r.Bad("ONE-TX", construct, p.Pos(fn.Pos()), "the operation runs two transactions (or one in a loop) on some path: another client's operation can take effect between them, so the operation is not atomic")
+			r.Bad("ONE-TX", construct, p.Pos(fn.Pos()), badMsg)
 		case len(txs) == 0:
 			r.OK("ONE-TX", construct, p.Pos(fn.Pos()), "no transaction")
 		default:
 			r.OK("ONE-TX", construct, p.Pos(fn.Pos()), "exactly one DB.Update/View on every path")
 		}
 	}
-	// STATELESS-SERVICE
+}
+
+func runStatelessService(p *core.Program, r *core.Report) {
 	svc := p.NamedType(pkgDaemon, "service")
 	if !r.Anchor("STATELESS-SERVICE", "daemon.service", svc != nil) {
 		return
